@@ -570,6 +570,7 @@ func init() {
 		section{"nsec3-hash", tiered(200, 6000), c17Hash},
 		section{"nsec3-cover", tiered(150, 5000), c17Cover},
 		section{"keys", tiered(28, 700), c17Keys},
+		section{"same-tag-keys", tiered(10, 150), func(w *core.W, j int) { sameTagKeys(w, j, "C17") }}, // generated keys that share owner, algorithm and tag: each verifies only its own signatures
 		section{"generated-many", tiered(20, 300), c17GeneratedMany},
 		section{"validity", tiered(100, 4000), c17Validity},
 		concurrentSection("C17"),
